@@ -100,6 +100,7 @@ type interpreter struct {
 	threads      []*thread
 	cur          *thread
 	killing      bool
+	preempts     int
 	pendingAbort interface{}
 	hostDone     chan struct{}
 	wgs          map[*value]*wgState
